@@ -139,6 +139,30 @@ class TSub extends TOwn {
         return this;
     }
 }
+class Hold {
+    public Hold peer;
+    public Hold next;
+    public QBase owned;
+    public Loud bell;
+    public constructor() -> Hold = default;
+}
+function hops(int n) -> int {
+    // an unreachable cycle a <-> b from which a qubit owner is n holders away (holders allocated first)
+    Hold a = new Hold();
+    Hold b = new Hold();
+    a.peer = b;
+    b.peer = a;
+    Hold cur = b;
+    for (int i = 0; i < n; i = i + 1) {
+        Hold w = new Hold();
+        cur.next = w;
+        cur = w;
+    }
+    cur.bell = new Loud(n + 40);
+    cur.owned = new QBase();
+    x(cur.owned.q);
+    return n;
+}
 function qgarbage(int k) -> int {
     for (int i = 0; i < k; i = i + 1) {
         QSub a = new QSub();
@@ -229,6 +253,8 @@ SNIPPETS = [
                       "{v}b.kid = new Node({a});", "int {w} = garbage({b});", "x({v}b.q);", "echo({v}.peer.kid.v + {w});"]),
     ("q-cycle-then-scope-exit", ["{", "    QSub {v} = new QSub();", "    QSub {v}b = new QSub();", "    {v}.peer = {v}b;",
                                  "    {v}b.peer = {v};", "    x({v}.q);", "}", "echo(garbage({b}));", "qubit {v}n;", "bit {v}m = measure {v}n;", "echo({v}m);"]),
+    ("q-behind-holders", ["int {w} = hops({b});", "echo({w} + garbage(3));", "qubit {v};", "bit {v}m = measure {v};", "echo({v}m);"]),
+    ("q-behind-holders-burst", ["int {w} = hops({b} + 1);", "echo({w} + burst(18));"]),
     ("binary-operands", ["echo(new Node({a}).val() + garbage({b}) + new Node({b}).val());"]),
 ]
 
@@ -247,7 +273,8 @@ def gen_program(rng, scale=1, allow_error=True):
         m = dict(a=rng.randint(1, 9), b=rng.randint(1, 4), v="o%d" % uid, w="w%d" % uid)
         # objects that own qubits are never swept, so their qubits stay allocated: bound the register
         cost = {"q-cycle-garbage": 2 * m["b"] + 1, "t-cycle-garbage": 2 * m["b"], "q-kid-only": 1, "qsub-kid-only": 1,
-                "t-kid-only": 1, "q-live-cycle": 2, "q-cycle-then-scope-exit": 3}.get(tag, 0)
+                "t-kid-only": 1, "q-live-cycle": 2, "q-cycle-then-scope-exit": 3, "q-behind-holders": 2,
+                "q-behind-holders-burst": 1}.get(tag, 0)
         if qubits + cost > 11:
             continue
         qubits += cost
@@ -282,7 +309,8 @@ def run_schedule(binary, src, spec, timeout=60, extra_env=None):
     if extra_env:
         env.update(extra_env)
     env.setdefault("BLOCH_VERIF_SEED", "7")
-    r, events, qasm, _ = core.run_bloch(binary, src, env=env, trace=True, timeout=timeout)
+    # stall_s: an interpreter blocked on its own timer thread (or vice versa) burns no CPU at all
+    r, events, qasm, _ = core.run_bloch(binary, src, env=env, trace=True, timeout=timeout, stall_s=20)
     r.qasm = qasm
     return r, events
 
@@ -411,7 +439,12 @@ def timer_part(ctx):
         out = outcome(r, r.qasm, ev)
         if not tsan and out != refs[i]:
             if out[0] == "timeout":
-                ctx.inconclusive_because("timer run timed out")
+                if r.stalled:
+                    ctx.violation("gc:deadlock:timer", "with the timer at %d us the run stopped consuming CPU and never "
+                                  "ended (reference run of the same program ends normally): the interpreter and its "
+                                  "timer thread block each other" % period, case, files)
+                else:
+                    ctx.inconclusive_because("timer run timed out")
                 continue
             held = [g for g in gcs if g["held"] > 0]
             ctx.violation("gc:output:timer" if out[0] in ("ok", "diag") else "gc:crash:%s" % (out[1],),
@@ -433,14 +466,18 @@ def lifecycle_part(ctx):
         binary = build.build("evalmon", flavour)
         iters = ctx.n(400, 6000) if flavour == "tsan" else ctx.n(300, 3000)
         r = core.run([binary, "lifecycle", str(iters), str(ctx.seed)], timeout=900,
-                     env={"BLOCH_VERIF_GC_PERIOD_US": "100"})
+                     env={"BLOCH_VERIF_GC_PERIOD_US": "100"}, stall_s=20)
         cls = r.classify()
         if cls[0] == "sanitizer":
             ctx.violation("gc:" + cls[1], "sanitizer report in the lifecycle loop (%s): %s" %
                           (flavour, r.san[0]["text"][:400]), dict(lifecycle=flavour), {"stderr.txt": r.stderr[-12000:]})
             continue
         if cls[0] != "ok":
-            if cls[0] == "timeout":
+            if cls[0] == "timeout" and r.stalled:
+                ctx.violation("gc:deadlock:lifecycle", "the construct/execute/destroy loop (%s) stopped consuming CPU and "
+                              "never ended: an evaluator could not stop its timer thread" % flavour,
+                              dict(lifecycle=flavour), {"stderr.txt": r.stderr[-4000:]})
+            elif cls[0] == "timeout":
                 ctx.inconclusive_because("lifecycle loop timed out (%s)" % flavour)
             else:
                 ctx.violation("gc:lifecycle:%s" % (cls[0],), "lifecycle loop failed: %r %s" % (cls, r.stderr[-300:]),
